@@ -436,8 +436,8 @@ pub open spec fn coord27_post(t: u8, sentinel: i32, x: i32, o: Option<f32>) -> b
 }
 '''
     std_message(fc, 't27', 'LongRangeAisBroadcastMessage', T27, {'C14': ['r is Ok <==> n >= 96']}, signed=(18, 17), guard='fld(o, 0, 6) == 27', more_spec=more)
-    fc.replace_in('parse_base', '|lon| {', '|lon: i32| -> (o: Option<f32>) ensures coord27_post(message_type, 108_600_000, lon, o), { ' + F32)
-    fc.replace_in('parse_base', '|lat| {', '|lat: i32| -> (o: Option<f32>) ensures coord27_post(message_type, 54_600_000, lat, o), { ' + F32)
+    fc.replace_in('parse_base', '|lon| {', '|lon: i32| -> (o: Option<f32>) requires -131072 <= lon < 131072, ensures coord27_post(message_type, 108_600, lon, o), { ' + F32)
+    fc.replace_in('parse_base', '|lat| {', '|lat: i32| -> (o: Option<f32>) requires -65536 <= lat < 65536, ensures coord27_post(message_type, 54_600, lat, o), { ' + F32)
     fc.replace_in('parse_base', '.map(|val| {', '.map(|val: f32| -> (w: f32) ensures w == (if message_type == 27 { val.mul_spec(1000.0f32) } else { val }), {', occ='all')
     fc.contract('parse_speed_over_ground_62', ensures=['sog27_rel(data, r)'], tags=['C10', 'C11'])
     fc.contract('parse_cog_511', ensures=['cog27_rel(data, r)'], tags=['C10', 'C11'])
@@ -493,12 +493,13 @@ pub open spec fn t15_C04(o: Seq<u8>, r: core::result::Result<Interrogation, ()>)
         &&& (m.stations@.len() == 2 ==> n >= 146 && station_at(o, 110, m.stations@[1]))
     }
 }
-/// one station (88 or 110 bits) or two (160 bits); at least destination 1 and its first message id must be present
+/// one destination (88 or 110 bits) or two (160 bits).  Mandatory part: destination 1 and its first message id
+/// (76 bits; the slot offset has an 'absent' encoding).  The second destination is reported exactly when its
+/// MMSI and first message id are present (bits 110..145).
 pub open spec fn t15_C14(o: Seq<u8>, r: core::result::Result<Interrogation, ()>) -> bool {
     let n = 8 * o.len();
-    &&& (r is Ok ==> n >= 76)
-    &&& (88 <= n < 138 ==> r is Ok && r->Ok_0.stations@.len() == 1)
-    &&& (n == 160 ==> r is Ok && r->Ok_0.stations@.len() == 2)
+    &&& (r is Ok <==> n >= 76)
+    &&& (r is Ok ==> (r->Ok_0.stations@.len() == 2 <==> n >= 146))
 }
 '''
     fc.add_prologue(MSG_PROLOGUE)
